@@ -273,6 +273,8 @@ def replay(pid, obligation, function, inst):
         env = dict(os.environ, PYTHONPATH=d, PYTHONDONTWRITEBYTECODE="1")
         req = {"property": pid, "obligation": obligation, "function": function,
                "model": inst.get("model") or {}, "path": inst.get("path") or inst.get("trace") or []}
+        if inst.get("scenario"):
+            req["scenario"] = inst["scenario"]
         p = subprocess.run(["/venv/bin/python", os.path.join(HERE, "replay", "run.py")],
                            input=json.dumps(req), capture_output=True, text=True, env=env, cwd=d, timeout=300)
         try:
